@@ -1,6 +1,7 @@
 import PcfgVerif.Model.Detect
 import PcfgVerif.Model.Scorer
 import PcfgVerif.Model.Counters
+import PcfgVerif.Model.Trainer
 import PcfgVerif.Drive.Loader
 /-! Driver commands for the detectors / parsing pipeline (C05, C13, C03). -/
 namespace Drive.Detect
@@ -70,6 +71,17 @@ def step (st : St) : List String → St × String
     match parseCps pw with
     | some pw => (st, showParsed (parse st.uenv st.cfg st.mw pw))
     | none => (st, "bad-op")
+  | "tr.train" :: toks =>
+    -- the PCFG half of the trainer on a whole list (pass 1 + pass 2): every counter, insertion order included
+    let pws := toks.filterMap parseCps
+    let c := Pcfg.Trainer.train st.uenv st.cfg pws
+    let showT (t : MWTable) : String := "[" ++ ",".intercalate (t.map fun p => s!"{showCps p.1}={p.2}") ++ "]"
+    let showL (d : LenCtr) : String := " ".intercalate (d.map fun e => s!"{e.1}:{showT e.2}")
+    let showS (t : Pcfg.Trainer.SCtr) : String := "[" ++ ",".intercalate (t.map fun p => s!"{p.1}={p.2}") ++ "]"
+    (st, " | ".intercalate [s!"kb {showL c.keyboard}", s!"emails {showT c.emails}", s!"providers {showT c.providers}",
+      s!"urls {showT c.urls}", s!"hosts {showT c.hosts}", s!"prefixes [{",".intercalate (c.prefixes.map fun p => s!"{match p.1 with | some x => showCps x | none => "None"}={p.2}")}]", s!"years {showT c.years}",
+      s!"ctx {showT c.context}", s!"alpha {showL c.alpha}", s!"masks {showL c.masks}", s!"digits {showL c.digits}",
+      s!"other {showL c.other}", s!"prince {showS c.prince}", s!"base {showS c.base}", s!"raw {showS c.rawBase}"])
   | "dt.lenctr" :: toks =>
     -- successive `_update_counter_len_indexed` calls on one fresh counter dict; calls are separated by `|`
     let calls := ((" ".intercalate toks).splitOn " | ").map fun c => ((c.splitOn " ").filter (· ≠ "")).filterMap parseCps
